@@ -31,7 +31,9 @@ def _doc():
 
 
 def strategy(tier):
-    p = G.Profile(doc=_doc(), max_items=6 if tier == "quick" else 10, depth=3)
+    multi = st.lists(st.sampled_from(['"cont @\\\nnext"', '"nl @\nnext"', '"two @\\\nmore\\\nlines"']), min_size=1, max_size=1)
+    p = G.Profile(doc=_doc(), max_items=6 if tier == "quick" else 10, depth=3,
+                  set_values=G.weighted((3, G.arglist(0, 4, G.SET_VALUE_T)), (1, multi)))
     return st.fixed_dictionaries({
         "module": G.module(p),
         "layouts": st.lists(st.lists(st.integers(0, 23), min_size=1, max_size=48), min_size=1, max_size=3),
